@@ -40,6 +40,7 @@ theorem enter_core (L : Laws3 D) {W : World} {s : MSt H} {σ2 : SSt} {lam cenv :
     (a17 : ∀ j x, (fs ++ ints).length ≤ j → p.ctx.envmap[j]? = some (x, .iofEnvironment) →
       ∃ e n l, ops.envGet s.heap cenv j = some (.lexEnvPtr e n) ∧ ρc.lookup x = some l ∧ W e n l ∧ InitM ops s.heap e n)
     (a18 : D.envOK s.heap cenv)
+    (a19 : ∀ j x, p.ctx.envmap[j]? = some (x, .internal) → ops.envGet s.heap cenv j = some .undefined)
     (hprol : p.prologue[pos]? = some (.op .enter))
     (hi : Inv3 D W s.heap σ2) (hvs : All2 (VR3 D W s.heap σ2.store) vs ws) (hvl : vs.length = fs.length)
     (hipL : s.ipL = lam) (hipO : s.ipO = pos)
@@ -81,7 +82,7 @@ theorem enter_core (L : Laws3 D) {W : World} {s : MSt H} {σ2 : SSt} {lam cenv :
   have hwE : SWF stE := push_swf _ _
   have spE : stE.sp = B + 4 := by show (s.stack.push _).sp = _; simp [hsp]; omega
   have cellE : ∀ i, i ≤ s.stack.sp → stE.cells[i]? = s.stack.cells[i]? := fun i hi' => push_below _ _ hw i hi'
-  obtain ⟨h', a, hmk, hfresh, hargs, hints, hcap, hframe, hglob, hext, hsrx⟩ :=
+  obtain ⟨h', a, hmk, hfresh, hargs, hints, hcap, hframe, hglob, hext, hsrx, hnok⟩ :=
     L.activation_ok s.heap σ2.store lam cenv B stE _ fs.length hi.extra a11 a13 hinfo a18
       (by
         intro j src hj
@@ -104,6 +105,18 @@ theorem enter_core (L : Laws3 D) {W : World} {s : MSt H} {σ2 : SSt} {lam cenv :
           show st0.sp + vs.length - (fs.length - j) + 1 < stE.cells.length
           omega
         · simp [rsrc] at hr
+        · have := a15 q hqc
+          obtain ⟨x, src⟩ := q
+          simp only at this; subst this
+          simp [rsrc] at hr)
+      (by
+        intro j hj
+        obtain ⟨q, hq, hr⟩ := map_get _ _ _ _ hj
+        have hq' := hq
+        rw [a14] at hq
+        rcases em3_entry_cases hq with ⟨_, x, _, rfl⟩ | ⟨_, _, x, _, rfl⟩ | ⟨_, hqc⟩
+        · simp [rsrc] at hr
+        · exact a19 j x hq'
         · have := a15 q hqc
           obtain ⟨x, src⟩ := q
           simp only at this; subst this
@@ -155,7 +168,13 @@ theorem enter_core (L : Laws3 D) {W : World} {s : MSt H} {σ2 : SSt} {lam cenv :
     rw [hfresh n] at h1; cases h1
   have hvs' : All2 (VR3 D W' h' σ2.store) vs ws := All2.vr3_mono hvs hext hwW
   have hi1 : Inv3 D W' h' σ2 := by
-    refine ⟨fun y u hn hy => ?_, fun y hn hy => ?_, hsrx, hi.gset, hi.loaded.ext hext.toExt2, ?_, ?_, ?_⟩
+    refine ⟨fun y u hn hy => ?_, fun y hn hy => ?_, hsrx, hi.gset, hi.loaded.ext hext.toExt2, ?_, ?_, ?_, ?_⟩
+    rotate_right
+    · intro e n l hW ok
+      rcases hW with hW | ⟨rfl, _, _⟩
+      · obtain ⟨v, _, g1, _⟩ := hi.vars e n l hW
+        exact hi.wact e n l hW (hext.okBack e n v g1 ok)
+      · exact hnok ok
     · rw [hglob]; exact (hi.bound y u hn hy).mono hext hwW
     · rw [hglob]; exact hi.unbound y hn hy
     · intro e n l l' h1 h2
